@@ -160,7 +160,7 @@ struct Rd
 struct Arena
 {
   std::deque<std::string> strs;
-  char* ref_base{nullptr};
+  static inline char* ref_base = nullptr;   // mapped once per process
   size_t ref_cur{0};
   char* str(Rd& r, size_t n)                      // n bytes + terminator
   {
@@ -394,6 +394,7 @@ static void run_case(std::vector<u64> const& a)
   }
   catch (std::exception const&) { enc_ok = false; }
   bool strrel = false;
+  bool unit_ok = enc_ok;
   if (!enc_ok) { out.push_back(0); }
   else
   {
@@ -408,8 +409,17 @@ static void run_case(std::vector<u64> const& a)
     strrel = store.has_string_related_type();
     out.push_back(1);
     out.push_back(static_cast<size_t>(q - start));
+    unit_ok = (written == sz) && (static_cast<size_t>(q - start) == written);
   }
   std::free(buf);
+  if (!unit_ok)
+  {
+    // reserved != written or written != consumed: the real queue would be corrupted by this
+    // statement; report the unit-level numbers only (reserved = "not run")
+    out.push_back(18446744073709551611ull);
+    vh::print_line(out);
+    return;
+  }
 
   // ---- (3) end to end through the logger, the queue and the backend
   auto& queue = g_ctx->get_spsc_queue<HOpts::queue_type>();
@@ -463,13 +473,15 @@ static void run_san(std::vector<u64> const& a)
 {
   std::string s(a.size(), '\0');
   for (size_t k = 0; k < a.size(); ++k) s[k] = static_cast<char>(a[k]);
-  static constexpr quill::MacroMetadata md{"codec.cpp:3", "harness", "{}", nullptr, quill::LogLevel::Info, quill::MacroMetadata::Event::Log};
+  // "|" after the payload: the backend drops one trailing newline of a message, which is not the sanitiser's doing
+  static constexpr quill::MacroMetadata md{"codec.cpp:3", "harness", "{}|", nullptr, quill::LogLevel::Info, quill::MacroMetadata::Event::Log};
   g_sink->msgs.clear();
   g_logger->template log_statement<false, false>(quill::LogLevel::None, &md, s);
   for (auto& c : s) c = '#';
   g_mbw->poll();
   std::vector<u64> out;
-  if (g_sink->msgs.size() == 1) for (char c : g_sink->msgs[0]) out.push_back(static_cast<unsigned char>(c));
+  if (g_sink->msgs.size() == 1 && !g_sink->msgs[0].empty() && g_sink->msgs[0].back() == '|')
+    for (size_t k = 0; k + 1 < g_sink->msgs[0].size(); ++k) out.push_back(static_cast<unsigned char>(g_sink->msgs[0][k]));
   else out.push_back(18446744073709551615ull);
   vh::print_line(out);
 }
